@@ -539,22 +539,31 @@ func checkNotSupportedCensus(c *Ctx) {
 // doSackClosure finds the closure handed to performTCPFallback as doSack.
 func tcpImplClosures(c *Ctx) map[string]*ssa.Function {
 	out := map[string]*ssa.Function{}
-	f := c.P.Func("traceroute.runTracerouteOnce")
 	sel := c.P.Func("traceroute.performTCPFallback")
-	if f == nil || sel == nil {
+	if sel == nil {
 		return out
 	}
-	for _, b := range f.Blocks {
-		for _, in := range b.Instrs {
-			call, ok := in.(*ssa.Call)
-			if !ok || call.Common().StaticCallee() != sel {
+	// the implementation behind each function parameter of the selector: what the call graph resolves the calls of that
+	// parameter to (the closures may be made in the per-run function, in a helper of it, or gathered in a struct first)
+	cg := c.P.CallGraph()
+	for _, h := range withClosures(sel) {
+		node := cg.Nodes[h]
+		if node == nil {
+			continue
+		}
+		for _, e := range node.Out {
+			if e.Site == nil || e.Site.Common().IsInvoke() || e.Site.Common().StaticCallee() != nil {
 				continue
 			}
-			for i, a := range call.Common().Args {
-				if mc, ok := c.P.Def(a).(*ssa.MakeClosure); ok && i < len(sel.Params) {
-					out[sel.Params[i].Name()] = mc.Fn.(*ssa.Function)
-				}
+			pa, ok := c.P.Def(e.Site.Common().Value).(*ssa.Parameter)
+			if !ok || pa.Parent() != sel {
+				continue
 			}
+			if prev, dup := out[pa.Name()]; dup && prev != e.Callee.Func {
+				out[pa.Name()] = nil
+				continue
+			}
+			out[pa.Name()] = e.Callee.Func
 		}
 	}
 	return out
